@@ -30,7 +30,7 @@ chk.extra['rule'] = ('a fine-grained Molecule and a particle Molecule are built 
                      'particles, positions missing/None, keys missing from the weight dict, extraneous keys); the real '
                      'do_average_bead / DoAverageBead.run_molecule is run; a case is non-trivial if some particle has '
                      '>= 2 positioned constituents with unequal weights; distinct = distinct protocol line')
-chk.lean(['VermouthProps.C09', 'VermouthProps.C09_Pipeline'], 'driver_c09')
+chk.lean(['VermouthProps.C09', 'VermouthProps.C09_Pipeline', 'VermouthProps.C09_Boundary'], 'driver_c09')
 
 import numpy as np
 import networkx as nx
@@ -104,8 +104,8 @@ def build(case):
     return aa, cg
 
 
-def quant(v):
-    return floor(F(float(v)) * Q + F(1, 2))
+def quant(v, qexp=30):
+    return floor(F(float(v)) * (F(2) ** qexp) + F(1, 2))
 
 
 def run_impl(case, proc=None):
@@ -153,7 +153,7 @@ def run_impl(case, proc=None):
             out.append('xnonfinite')
             raw.append('nonfinite %r' % (pos,))
         else:
-            out.append('[ %d %d %d ]' % tuple(quant(c) for c in pos))
+            out.append('[ %d %d %d ]' % tuple(quant(c, case.get('qexp', 30)) for c in pos))
             raw.append(tuple(F(float(c)) for c in pos))
     return 'ok ' + ('[ ' + ' '.join(out) + ' ]' if out else '[ ]'), raw
 
@@ -179,6 +179,9 @@ def proto(case):
     wt = case['weight']
     wt = 0 if wt is False else wt
     ffv = None if case['ffvar'] == 'absent' else case['ffvar']
+    if 'qexp' in case:
+        # scaled inputs: results cross in units of 2^-qexp
+        return line('avgq', case['qexp'], entry, wt, ffv, case['ignore'], beads)
     return line('avg', entry, wt, ffv, case['ignore'], beads)
 
 
@@ -293,11 +296,31 @@ def oracle(case, raw):
                 errs.append('particle %d axis %d: position %.10f is not the weighted mean %.10f of its %d positioned '
                             'constituents' % (i, ax, float(r[ax]), float(want), len(cons)))
                 break
+        # weights of ANY sign: the particle lies in the affine hull of the constituents that carry weight -
+        # a coordinate they all share is the particle's coordinate
+        live = [x for w, x in cons if w != 0]
+        for ax in range(3):
+            vals = {x[ax] for x in live}
+            if len(vals) == 1:
+                flags.add('shared_coordinate')
+                v = next(iter(vals))
+                if abs(r[ax] - v) > scale * F(1, 1 << 40) / abs(total):
+                    errs.append('particle %d axis %d: every weighted constituent has coordinate %s, the particle has '
+                                '%.12g' % (i, ax, v, float(r[ax])))
+                    break
+        if any(w < 0 for w, _ in cons):
+            flags.add('negative_weight')
+        if len(live) == 1:
+            flags.add('single_weighted_constituent')
+        if any(x == (0, 0, 0) for x in live):
+            flags.add('constituent_at_origin')
         if all(w >= 0 for w, _ in cons):
+            # (cases with scaled coordinates: the float result carries a relative rounding error)
+            btol = F(1, 1 << 40) * (1 if 'qexp' not in case else max(1, max(abs(c) for _, x in cons for c in x)))
             for ax in range(3):
                 lo = min(x[ax] for w, x in cons if w > 0)
                 hi = max(x[ax] for w, x in cons if w > 0)
-                if not (lo - F(1, 1 << 40) <= r[ax] <= hi + F(1, 1 << 40)):
+                if not (lo - btol <= r[ax] <= hi + btol):
                     errs.append('particle %d axis %d: %.10f outside the bounding box [%s, %s] of its constituents'
                                 % (i, ax, float(r[ax]), lo, hi))
                     break
@@ -568,6 +591,93 @@ def within_one(a, b):
                 return False
     return True
 
+
+# ----------------------------------------------------------------------------
+# boundary values: weight 0 / 0.0 versus a key missing from mapping_weights, mass 0, atoms AT the origin
+# ([0, 0, 0] is a position), a single (weighted / positioned) constituent, negative weights on collinear or
+# coplanar atoms (affine hull), coordinates scaled by 2^s, s in [-60, 60] (exact in binary64: 13-bit
+# mantissas, weights in sixteenths; results cross in units of 2^(s-20)).
+# ----------------------------------------------------------------------------
+def gen_boundary(rng):
+    kind = rng.choice(['single', 'single', 'origin', 'origin', 'zero_vs_missing', 'mass0', 'negative', 'scaled',
+                       'scaled'])
+    s = rng.choice([-60, -40, -21, -7, 5, 20, 33, 60]) if kind == 'scaled' else 0
+    unit = F(2) ** s
+
+    def coord():
+        if kind == 'scaled':
+            return fs(rng.randint(-4096, 4096) * unit)
+        return fs(F(rng.randint(-640, 640), 64))
+    n_atoms = rng.choice([1, 1, 2, 3, 4, 6]) if kind == 'single' else rng.choice([2, 3, 4, 6, 8])
+    keys = rng.sample(range(0, 40), n_atoms)
+    masses = {'mass0': [F(0), F(0), F(0), F(1), F(12)], 'negative': [F(1), F(2)]}.get(kind, MASS + [F(0)])
+    if kind == 'mass0' and rng.random() < 0.4:
+        masses = [F(0)]
+    plane = [rng.random() < 0.5 for _ in range(3)]      # 'negative': coordinates shared by all atoms
+    shared = [coord() for _ in range(3)]
+    atoms = []
+    for j, k in enumerate(keys):
+        pos = [coord() for _ in range(3)]
+        if kind == 'origin' and rng.random() < 0.6:
+            pos = ['0', '0', '0']
+        if kind == 'negative':
+            pos = [shared[ax] if plane[ax] else pos[ax] for ax in range(3)]
+        if kind == 'single' and j > 0 and rng.random() < 0.7:
+            pos = rng.choice([None, 'absent', [pos[0], 'nan', pos[2]]])
+        atoms.append([k, pos, {'mass': fs(rng.choice(masses)), 'other': fs(rng.choice([F(0), F(1), F(2)]))}])
+    if kind == 'origin' and rng.random() < 0.3:
+        for a in atoms:
+            a[1] = ['0', '0', '0']
+    beads = []
+    for _ in range(rng.randint(1, 3)):
+        graph = rng.sample(keys, rng.randint(1, n_atoms))
+        if kind == 'single' and rng.random() < 0.5:
+            graph = graph[:1]
+        weights = []
+        for k in graph:
+            r = rng.random()
+            if kind == 'zero_vs_missing':
+                if r < 0.4:
+                    weights.append([k, '0'])
+                elif r < 0.7:
+                    continue                       # key missing: weight 1
+                else:
+                    weights.append([k, fs(rng.choice(MAPW))])
+            elif kind == 'negative':
+                weights.append([k, fs(rng.choice([F(-1), F(2), F(-1, 2), F(3), F(1), F(-2)]))])
+            elif kind == 'single':
+                if r < 0.25:
+                    continue
+                weights.append([k, fs(rng.choice([F(0), F(0), F(1), F(2), F(1, 4), F(-1)]))])
+            else:
+                if r < 0.15:
+                    continue
+                weights.append([k, fs(rng.choice(MAPW))])
+        rng.shuffle(weights)
+        beads.append({'graph': graph, 'weights': None if (not weights and rng.random() < 0.5) else weights,
+                      'container': rng.choice(['subgraph', 'nx'])})
+    entry = rng.choice(['function', 'processor'])
+    if entry == 'function':
+        weight, ffvar = rng.choice([None, None, 'mass', 'other']), rng.choice(['absent', 'mass'])
+    else:
+        weight = rng.choice([None, None, None, False, 'mass'])
+        ffvar = rng.choice(['absent', None, 'mass', 'mass', 'other'])
+    c = {'entry': entry, 'weight': weight, 'ffvar': ffvar, 'ignore': rng.random() < 0.5, 'atoms': atoms,
+         'beads': beads, 'kind': 'boundary-' + kind}
+    if kind == 'scaled':
+        c['qexp'] = 20 - s
+    return c
+
+
+rng = chk.rng('boundary')
+for i in range(12000 if chk.thorough else 900):
+    c = gen_boundary(rng)
+    cases.append(('boundary-%d' % i, c, None, None))
+    if rng.random() < 0.25:
+        rot = rng.choice(ROTS)
+        unit = F(2) ** (20 - c['qexp']) if 'qexp' in c else F(1, 64)
+        shift = [rng.randint(-1280, 1280) * unit for _ in range(3)]
+        cases.append(('boundary-%d-moved' % i, moved(c, rot, shift), len(cases) - 1, (rot, shift)))
 
 # Constituents with non-finite coordinates, densely (F-C09-1, fixed in /repo by 8cf210c: they are
 # without coordinates and must never contribute, even when only ONE coordinate is undefined).
@@ -902,7 +1012,8 @@ for idx, ((cid, c, twin, motion), ln, im, mo, raw) in enumerate(zip(cases, lines
             for i, (r0, r1) in enumerate(zip(base_raw, raw)):
                 if isinstance(r0, tuple) and isinstance(r1, tuple):
                     want = move_point(r0, rot, shift)
-                    if any(abs(a - b) > F(1, 1 << 36) for a, b in zip(want, r1)):
+                    ttol = F(1, 1 << 36) * (1 if 'qexp' not in c else max([1] + [abs(x) for x in want]))
+                    if any(abs(a - b) > ttol for a, b in zip(want, r1)):
                         errs.append('particle %d does not follow the rigid motion: %s expected %s'
                                     % (i, [float(x) for x in r1], [float(x) for x in want]))
                 elif r0 != r1:
